@@ -158,6 +158,15 @@ def _decl_bins(cx, kinds):
     return out
 
 
+def cx_plain(v):
+    """Index observables (ints / tuples of ints / None) as plain python values."""
+    if v is None:
+        return None
+    if isinstance(v, (list, tuple)):
+        return tuple(cx_plain(i) for i in v)
+    return int(getattr(v, "v", v))
+
+
 @register
 class C15Paths(Harness):
     prop = "C15"
@@ -168,6 +177,9 @@ class C15Paths(Harness):
     def instances(self, tier):
         for name in CLS:
             for way in ("fill", "fill_n", "find_bin", "facade", "fill_transformed", "fill_n_transformed"):
+                yield f"path-{name}-{way}", dict(cls=name, way=way)
+            # histories that pass the SAME float64 array object to several entry paths (the caller's array must not be consumed)
+            for way in ("find_then_fill", "fill_n_twice") + (("facade_then_fill_n",) if name in ("spherical", "sphere_surface", "cylindrical") else ()):
                 yield f"path-{name}-{way}", dict(cls=name, way=way)
 
     def declare(self, cx, p):
@@ -223,7 +235,35 @@ class C15Paths(Harness):
             if isinstance(r, Raised):
                 return {"op": {"raised": r}}
             return {"op": "ok", "freq": r.frequencies.tolist(), "cls": type(r).__name__, "total": r.total}
+        if way == "facade_then_fill_n":
+            data = np.asarray([x["p"]], dtype=float)
+            fn, kw = {"spherical": (sp.spherical, dict(radial_bins=bins[0], theta_bins=bins[1], phi_bins=bins[2])) if len(bins) == 3 else None,
+                      "sphere_surface": (sp.spherical_surface, dict(theta_bins=bins[0], phi_bins=bins[1])) if len(bins) == 2 else None,
+                      "cylindrical": (sp.cylindrical, dict(rho_bins=bins[0], phi_bins=bins[1], z_bins=bins[2])) if len(bins) == 3 else None,
+                      "cylinder_surface": (sp.cylindrical_surface, dict(phi_bins=bins[0], z_bins=bins[1])) if len(bins) == 2 else None}[name]
+            r = E.attempt(fn, data, dropna=False, **kw)
+            if isinstance(r, Raised):
+                return {"op": {"raised": r}}
+            r2 = E.attempt(r.fill_n, data)
+            if isinstance(r2, Raised):
+                return {"op": {"raised": r2}}
+            return {"op": "ok", "freq": r.frequencies.tolist(), "total": r.total, "input_after": data.tolist()[0]}
         h = self._hist(E, p, x)
+        if way == "find_then_fill":
+            i1 = E.attempt(h.find_bin, pt)
+            if isinstance(i1, Raised):
+                return {"op": {"raised": i1}}
+            r = E.attempt(h.fill, pt)
+            if isinstance(r, Raised):
+                return {"op": {"raised": r}}
+            return {"op": "ok", "index": r, "index_found": i1, "freq": h.frequencies.tolist(), "total": h.total, "input_after": pt.tolist()}
+        if way == "fill_n_twice":
+            data = np.asarray([x["p"]], dtype=float)
+            for _ in range(2):
+                r = E.attempt(h.fill_n, data)
+                if isinstance(r, Raised):
+                    return {"op": {"raised": r}}
+            return {"op": "ok", "freq": h.frequencies.tolist(), "total": h.total, "input_after": data.tolist()[0]}
         if way == "find_bin":
             r = E.attempt(h.find_bin, pt)
             return {"op": {"raised": r} if isinstance(r, Raised) else "ok", "index": None if isinstance(r, Raised) else r, "freq": h.frequencies.tolist(), "total": h.total}
@@ -260,13 +300,18 @@ class C15Paths(Harness):
         memb = [[z3.And(e[k][j] <= ref[k], (ref[k] <= e[k][j + 1]) if j == 1 else (ref[k] < e[k][j + 1])) for j in range(2)] for k in range(D)]
         pre = z3.And(side) if side else z3.BoolVal(True)
         freq = obs["freq"]
+        times = 2 if p["way"] in ("fill_n_twice", "facade_then_fill_n") else 1
         if p["way"] != "find_bin":
             for idx in product_indices([2] * D):
                 inc = z3.And([memb[k][idx[k]] for k in range(D)])
                 cell = getcell(freq, idx) if D > 1 else freq[idx[0]]
-                yield f"cell[{','.join(map(str, idx))}]", z3.Implies(pre, cx.eq(cell, z3.If(inc, 1, 0)))
+                yield f"cell[{','.join(map(str, idx))}]", z3.Implies(pre, cx.eq(cell, z3.If(inc, times, 0)))
+        if "input_after" in obs:
+            yield "caller_array_unchanged", z3.And([cx.t(a) == b for a, b in zip(obs["input_after"], pts)])
+        if "index_found" in obs:
+            yield "find_bin_and_fill_agree", z3.BoolVal(repr(cx_plain(obs["index_found"])) == repr(cx_plain(obs["index"])))
         idx_obs = obs.get("index")
-        if p["way"] in ("fill", "fill_transformed", "find_bin"):
+        if p["way"] in ("fill", "fill_transformed", "find_bin", "find_then_fill"):
             inside = z3.And([z3.Or(memb[k]) for k in range(D)])
             if idx_obs is None or (isinstance(idx_obs, int) and D == 1 and idx_obs in (-1, 2)):
                 yield "reported_outside_only_if_outside", z3.Implies(pre, z3.Not(inside))
